@@ -7,6 +7,36 @@ use crate::process_request::process_request;
 /// histories over 2 keys (names and values of concrete lengths, symbolic content, symbolic versions through set-safe):
 /// {set k0, set k1, remove k0, remove k1, increment n, snapshot incremental, snapshot reclaiming}; then restart and compare
 /// with the reference map frozen at the last completed snapshot
+/// representation invariant between memory and disk: every key in state Ok remembers the offsets at which its key record
+/// and its value record really are (this is what makes the next incremental snapshot safe)
+fn offsets_consistent(n: &Node, tag: &str) {
+    use vstd::io::{Read, Seek, SeekFrom};
+    let m = n.dbs.map.read().unwrap();
+    let db = match m.get(&String::from("d")) { Some(d) => d, None => return };
+    let entries: Vec<(String, Value)> = { let dm = db.map.read().unwrap(); dm.iter().map(|(k, v)| (k.clone(), v.clone())).collect() };
+    let base = crate::storage::disk::file_name_from_db_name(&String::from("d"));
+    let mut kf = vstd::fs::File::open([&base, ".keys"].concat()).unwrap();
+    let mut vf = vstd::fs::File::open([&base, ".values"].concat()).unwrap();
+    for (k, v) in entries.iter() {
+        if v.state != ValueStatus::Ok { continue; }
+        let mut l8 = [0u8; 8]; let mut v4 = [0u8; 4]; let mut a8 = [0u8; 8];
+        kf.seek(SeekFrom::Start(v.key_disk_addr)).unwrap();
+        kf.read(&mut l8).unwrap();
+        let klen = u64::from_le_bytes(l8);
+        vsym::check(&[tag, ".key-offset-points-at-its-record"].concat(), klen == k.len() as u64);
+        if klen == k.len() as u64 {
+            let mut kb = vec![0u8; k.len()]; kf.read(&mut kb).unwrap();
+            vsym::check(&[tag, ".key-record-names-the-key"].concat(), String::from_utf8(kb).unwrap() == *k);
+            kf.read(&mut v4).unwrap(); kf.read(&mut a8).unwrap();
+            vsym::check(&[tag, ".key-record-version"].concat(), i32::from_le_bytes(v4) == v.version);
+            vsym::check(&[tag, ".key-record-value-address"].concat(), u64::from_le_bytes(a8) == v.value_disk_addr);
+        }
+        vf.seek(SeekFrom::Start(v.value_disk_addr)).unwrap();
+        vf.read(&mut l8).unwrap();
+        vsym::check(&[tag, ".value-offset-points-at-its-record"].concat(), u64::from_le_bytes(l8) == v.value.len() as u64);
+    }
+}
+
 pub fn c06_history() {
     let n = mk_primary();
     mk_db(&n.dbs, "d", "none");
@@ -52,6 +82,7 @@ pub fn c06_history() {
             vsym::assume(is_ok(&r));
             snapshot_all_pendding_dbs(&n.dbs);
             unsafe { vstd::vmap::ITER_ROT = 0; }
+            offsets_consistent(&n, "after-snapshot");
             snap = Some(cur.clone());
             vsym::cover("snapshot.done", true);
         }
@@ -60,6 +91,7 @@ pub fn c06_history() {
     if let Some(expected) = snap {
         let n2 = restart_node("n1");
         vsym::check("restart.database-present", n2.dbs.has_db("d"));
+        offsets_consistent(&n2, "after-restart");
         if n2.dbs.has_db("d") {
             let mut k = 0;
             while k < 3 {
